@@ -59,12 +59,16 @@ structure Cl where
   answered : List (Nat × How) := []
   /-- requests encoded into the write buffer and not flushed to the connection yet -/
   unflushed : List Nat := []
+  /-- requests sent with an `abort` latch (resent by another connection's read loop, or by the slot refresher, since 9cd2b0b):
+  their `Send` may also give up because the *sender* was told to stop -/
+  abortable : List Nat := []
 deriving Repr
 
 inductive Label
   | sendBegin (id : Nat)        -- RLock; drained → answer with an error, else go on to the select
   | sendEnq (id : Nat)          -- select: enqueued
   | sendQuit (id : Nat)         -- select: quit → answer with an error
+  | sendAbort (id : Nat)        -- select: the sender's own quit (`req.abort`) → answer with an error
   | wTake | wQuitTop
   | wFilterStop                 -- the filter chain answered the request itself
   | wEncodeOk | wEncodeFail
@@ -93,6 +97,8 @@ def step (s : Cl) : Label → Option Cl
     else none
   | .sendQuit id =>
     if id ∈ s.locked ∧ s.quit then some (answer { s with locked := s.locked.erase id } id .error) else none
+  | .sendAbort id =>
+    if id ∈ s.locked ∧ id ∈ s.abortable then some (answer { s with locked := s.locked.erase id } id .error) else none
   | .wTake =>
     match s.writer, s.pending with
     | .top, id :: rest => some { s with writer := .hold id, pending := rest }
